@@ -123,6 +123,24 @@ IsClustered(T) ==
 Addressed(T) ==
   UNION { { <<U!Plus(T[i].id, N(k)), T[i].tok>> : k \in 0..(U!ToNat(T[i].run) - 1) } : i \in 1..Len(T) }
 
+
+(* ---- the v3 lookup procedure (as in the specification's pseudo code) ----------------- *)
+\* in one directory: the last entry whose ID is <= the target (0 if none)
+LastLE(E, id) == LET S == {i \in 1..Len(E) : U!Le(E[i].id, id)} IN
+                 IF S = {} THEN 0 ELSE CHOOSE i \in S : \A j \in S : j <= i
+RECURSIVE LookupDir(_, _, _, _)
+LookupDir(E, leaves, id, depth) ==
+  IF depth > MaxDepth THEN [kind |-> "none"]
+  ELSE LET i == LastLE(E, id) IN
+       IF i = 0 THEN [kind |-> "none"]
+       ELSE IF D!IsLeafPtr(E[i])
+            THEN LET ks == LeafFor(leaves, E[i]) IN
+                 IF ks = {} THEN [kind |-> "none"]
+                 ELSE LookupDir(leaves[CHOOSE k \in ks : TRUE].entries, leaves, id, depth + 1)
+            ELSE IF U!Le(id, D!LastId(E[i])) THEN [kind |-> "some", off |-> E[i].off, len |-> E[i].len]
+            ELSE [kind |-> "none"]
+Lookup(F, id) == LookupDir(F.root.entries, F.leaves, id, 1)
+
 (* ---- C02: the independent reader -------------------------------------------------- *)
 \* result: "ok" or the name of the first violated clause
 WellFormed(F) ==
